@@ -161,6 +161,11 @@ def _mirror(op):
     return {ast.Lt: ast.Gt, ast.Gt: ast.Lt, ast.LtE: ast.GtE, ast.GtE: ast.LtE}.get(type(op), type(op))()
 
 
+def mentions(expr: ast.AST, term: str) -> bool:
+    """Does `expr` contain a sub-expression whose normalised text is `term`?"""
+    return any(norm(x) == term or _norm(x) == term for x in ast.walk(expr))
+
+
 def assigned_names(st: ast.AST) -> Set[str]:
     out: Set[str] = set()
     if st is None:
@@ -218,7 +223,8 @@ def walk(cfg: CFG, start: int, env: Env, stop: Callable[[int], bool] = lambda n:
             v = env.eval(nd.expr, set(dead)) if not is_match else None
             if n not in test_atoms:
                 ta = set(collect_atoms(nd.expr)) if not is_match else set()
-                ta |= {t for t in list(env.ints) + list(env.strs) if t in _norm(nd.expr) or t in norm(nd.expr)}
+                subs = {norm(x) for x in ast.walk(nd.expr)} | {_norm(x) for x in ast.walk(nd.expr)}
+                ta |= {t for t in list(env.ints) + list(env.strs) if t in subs}
                 test_atoms[n] = frozenset(t for t in ta if t in atom_names or t in env.atoms)
             used2 = used | test_atoms[n]
             if v is None and track_undecided is not None:
